@@ -54,7 +54,7 @@ PROPS = {
     "C05": dict(
         domains=[("stream", "read", 6000, 80000), ("stream", "exhaustive", 1500, 6000), ("conn", "serve", 400, 4000), ("conn", "cnall4", 1, 1), ("conn", "xtalk", 24, 200), ("conn", "rdl", 1, 1), ("resource", "buflen", 1, 1)],
         relevant=["C05:"],
-        theorems=["DV.Props.C05."+t for t in ["C05_split","C05_frag","C05_one","C05_eof","C05_in_header","C05_by_length","splitStep_whole","C05_concat","C05_concat_reads","C05_all_bytes_arrive","C05_error_first_counterexample","C05_fill_gen","C05_gen"]],
+        theorems=["DV.Props.C05."+t for t in ["C05_split","C05_frag","C05_one","C05_eof","C05_in_header","C05_by_length","splitStep_whole","C05_concat","C05_concat_reads","whole_of_decodeMsg","sendable_whole","C05_sent_messages_arrive","C05_all_bytes_arrive","C05_error_first_counterexample","C05_fill_gen","C05_gen"]],
         gen_obligations=["Gen.HeaderLength","Gen.MessageBufferLength","Gen.readMessageCalls","Gen.readBodyGuard","Gen.readBodyLength","Gen.readDeadlineArming","Gen.directReadCalls","Gen.readerFillCalls"],
         trusted=CODEC_TRUST + ["Model.Stream hand-written from message.go readHeader/readBody and io.ReadFull's contract"],
     ),
@@ -108,7 +108,7 @@ PROPS = {
         trusted=CODEC_TRUST,
     ),
     "C08": dict(
-        domains=[("conn", "serve", 500, 6000), ("conn", "multi", 300, 4000), ("conn", "cnall4", 1, 1), ("conn", "accept", 60, 600), ("conn", "burst", 30, 300), ("sctp", "serve", 200, 2000), ("conn", "bigblock", 1, 1)],
+        domains=[("conn", "slowh", 6, 40), ("conn", "serve", 500, 6000), ("conn", "multi", 300, 4000), ("conn", "cnall4", 1, 1), ("conn", "accept", 60, 600), ("conn", "burst", 30, 300), ("sctp", "serve", 200, 2000), ("conn", "bigblock", 1, 1)],
         thorough_extra=[("conn", "cnall5", 1, 1)],
         relevant=["C08:"],
         theorems=["DV.Props.C08."+t for t in ["C08_one_at_a_time","C08_next_after_return","C08_order","C08_all_dispatched","C08_frame","C08_enabled","C08_gen"]],
